@@ -17,7 +17,7 @@ EXPLANATION = (
     "advances the counter once, and wakes one waiter before unlocking.  Exactly-once / order / no stranded peer over "
     "interleavings are not decided.")
 NOT_DECIDED = ["exactly-once, per-sender order and 'no stranded peer' over all interleavings"]
-ASSUMPTIONS = ["one receiver per bounded / unbounded channel (documented contract)"]
+ASSUMPTIONS = ["one receiver per bounded / unbounded channel (documented contract)", "64-bit message counters do not wrap (2^64 messages); counters narrower than 64 bits are checked across their wrap"]
 SIG = "fiber_signal"
 NO_WAITER, RAISED, RTW = 0, -1, -1
 
@@ -252,12 +252,16 @@ def check_multi(ctx, P):
         else:
             fH, fL, fS = c16.fld_load("high", MC), c16.fld_load("low", MC), c16.fld_load("size", MC)
             N = 4
-            for H in (0, 3, 4, 7):
-                for L in (0, 3, 4):
+            # counters narrower than 64 bits wrap within a channel's lifetime: the tests must then also be right across the wrap
+            bits = min(fl["bits_size"] for fl in P.record(MC)["fields"] if fl["name"] in ("high", "low"))
+            rows = [(H, L) for H in (0, 3, 4, 7) for L in (0, 3, 4) if H >= L]
+            if bits < 64:
+                M = 2 ** bits
+                rows += [(1, M - 1), (2, M - 2), (0, M - 4), (3, M - 1), (M - 1, M - 1)]
+            for H, L in rows:
                     atom = atom_from([(fH, H), (fL, L), (fS, N), (c16.fld_load("power_of_2_mod", MC), N - 1)])
-                    ok = (H - L < N) if mode == "send" else (H > L)
-                    if H < L:
-                        continue
+                    held = (H - L) % (2 ** bits)
+                    ok = (held < N) if mode == "send" else (held > 0)
                     go = reach(f, [sl[0].node], atom, barrier=nodeset(waits))
                     wt = reach(f, waits, atom)
                     if go != ok or wt == ok:
